@@ -153,6 +153,108 @@ def check_calc_deltas(res, E):
     return n_ok
 
 
+def check_check_deltas(res, E):
+    """Notification::check_deltas: Ok only if every listed delta whose serial the local state knows has the
+    known hash (a rewritten delta, applied or not, forces a snapshot)."""
+    body = E.prog.find("src/collector/rrdp/update.rs", "Notification", "check_deltas")
+    res.functions.append("routinator::collector::rrdp::update::Notification::check_deltas (MIR, %d blocks)" % len(body.blocks))
+    serials = z3.Array("cd_delta_serial", z3.IntSort(), z3.BitVecSort(64))
+    dhash = z3.Array("cd_delta_hash", z3.IntSort(), z3.IntSort())
+    known = z3.Array("cd_state_has", z3.BitVecSort(64), z3.BoolSort())
+    shash = z3.Array("cd_state_hash", z3.BitVecSort(64), z3.IntSort())
+    n = z3.Int("cd_n_deltas")
+    st_fields = mir.struct_fields("RepositoryState", "src/collector/rrdp/archive.rs")
+    state_serial = z3.BitVec("cd_state_serial", 64)
+    statep = mir.Opq("&RepositoryState", "state")
+    E.solver.add(n >= 0, n <= N)
+
+    def m_deltas(E_, st, frame, callee, argvals, dest_ty):
+        return {(): mir.Opq("&[DeltaInfo]", "slice"), ("s",): z3.IntVal(0), ("n",): n}
+
+    def m_into_iter(E_, st, frame, callee, argvals, dest_ty):
+        v = argvals[0]
+        if ("n",) not in v:
+            return NotImplemented
+        return {(): mir.Opq("slice::Iter<DeltaInfo>", "iter"), ("s",): v[("s",)], ("n",): v[("n",)]}
+
+    def m_next(E_, st, frame, callee, argvals, dest_ty):
+        r = argvals[0].get(())
+        if not isinstance(r, mir.Ref):
+            return NotImplemented
+        cur = E_.load(st, r.loc)
+        if ("n",) not in cur:
+            return NotImplemented
+        s0, n0 = cur[("s",)], cur[("n",)]
+        has = n0 > 0
+        new = dict(cur)
+        new[("s",)] = z3.simplify(z3.If(has, s0 + 1, s0))
+        new[("n",)] = z3.simplify(z3.If(has, n0 - 1, n0))
+        E_.store(st, r.loc, new)
+        return {("disc",): z3.If(has, z3.IntVal(1), z3.IntVal(0)),
+                (("v", "Some"), ("f", 0)): mir.Opq("&DeltaInfo", "elem"), (("v", "Some"), ("f", 0), "idx"): s0}
+
+    def m_dserial(E_, st, frame, callee, argvals, dest_ty):
+        idx = argvals[0].get(("idx",))
+        return {(): z3.Select(serials, idx)} if idx is not None else NotImplemented
+
+    def m_deref(E_, st, frame, callee, argvals, dest_ty):
+        return dict(argvals[0]) if ("idx",) in argvals[0] else NotImplemented
+
+    def m_hash(E_, st, frame, callee, argvals, dest_ty):
+        idx = argvals[0].get(("idx",))
+        return {(): z3.Select(dhash, idx)} if idx is not None else NotImplemented
+
+    def m_get(E_, st, frame, callee, argvals, dest_ty):
+        k = E_._through_ref(st, argvals[1]).get(())
+        if not mir.is_z(k):
+            return NotImplemented
+        E_.fresh_n += 1
+        loc = ("STATEHASH%d" % E_.fresh_n,)
+        st.mem[loc] = z3.Select(shash, k)
+        return {("disc",): z3.If(z3.Select(known, k), z3.IntVal(1), z3.IntVal(0)), (("v", "Some"), ("f", 0)): mir.Ref(loc)}
+
+    def pre(E_, st, frame):
+        st.mem[(("o", statep.id), "deref", ("f", st_fields.index("serial")))] = state_serial
+
+    paths = E.explore(body, max_visits=N + 2, nomut=[r"."], arg_values={"_2": {(): statep}}, pre=pre, max_paths=200000, models={
+        r"NotificationFile::deltas$": m_deltas,
+        r"^<&\[DeltaInfo\] as IntoIterator>::into_iter$|<impl \[DeltaInfo\]>::iter$": m_into_iter,
+        r"^<std::slice::Iter<'_, DeltaInfo> as Iterator>::next$": m_next,
+        r"DeltaInfo::serial$": m_dserial, r"^<DeltaInfo as Deref>::deref$": m_deref,
+        r"UriAndHash::hash$": m_hash, r"^HashMap::<u64, .*Hash>::get::<u64>$": m_get,
+    })
+    n_ok = 0
+    for i, p in enumerate(paths):
+        if p.kind == "bound":
+            if E.feasible(p.cond):
+                res.inconclusive.append("check_deltas: a feasible path exceeds %d iterations" % (N + 2))
+            continue
+        if p.kind != "return":
+            continue
+        d = p.ret.get(("disc",))
+        if d is None or not E.feasible(p.cond, d == 0):
+            continue
+        n_ok += 1
+        mism = z3.Or([z3.And(k < n, z3.Select(known, z3.Select(serials, k)),
+                             z3.Select(dhash, k) != z3.Select(shash, z3.Select(serials, k))) for k in range(N)])
+        m = E.model(p.cond, z3.And(d == 0, mism))
+        if m is not None and not any(v["key"] == "mir:check-deltas:rewritten-delta-accepted" for v in res.violations):
+            nn = m.eval(n, True).as_long()
+            lst = [(m.eval(z3.Select(serials, k), True).as_long(), m.eval(z3.Select(dhash, k), True).as_long()) for k in range(nn)]
+            kn = [(sv, m.eval(z3.Select(shash, z3.BitVecVal(sv, 64)), True).as_long())
+                  for sv, _ in lst if z3.is_true(m.eval(z3.Select(known, z3.BitVecVal(sv, 64)), True))]
+            loc = m.eval(state_serial, True).as_long()
+            desc = ("local serial %d with known delta hashes %s; notification lists (serial, hash) %s: check_deltas returns "
+                    "Ok although a delta the local state knows is listed with a different hash (rewritten history is "
+                    "not detected, no snapshot fallback)" % (loc, kn, lst))
+            fn = mprop.write_cex(res, "check_deltas_%d" % i, p, E, desc, m)
+            res.violation("mir:check-deltas:rewritten-delta-accepted", desc, fn)
+    if n_ok == 0:
+        res.inconclusive.append("vacuity: check_deltas has no Ok path")
+    res.extra["check_deltas_paths"] = len(paths)
+    res.distinct += n_ok
+
+
 def check_update_gating(res, E):
     f = "src/collector/rrdp/base.rs"
     body = E.prog.find(f, "RepositoryUpdate", "update")
@@ -243,11 +345,14 @@ def run(res, tier):
     res.extra.setdefault("source_files_sha256", {}).update(mprop.source_hashes(
         ["src/collector/rrdp/base.rs", "src/collector/rrdp/update.rs", "src/collector/rrdp/archive.rs"]))
     check_calc_deltas(res, E)
+    check_check_deltas(res, E)
     check_update_gating(res, E)
     res.bounds += [
         "calc_deltas: notification delta list of 0..%d entries with fully symbolic 64-bit serials, sorted ascending as "
         "Notification::from_response leaves it (gaps and duplicates allowed); local and notified serial symbolic; "
         "longer lists are outside the bound" % N,
+        "check_deltas: the same bound on the list; the local state's known serials and hashes are an arbitrary map "
+        "(z3 arrays); hashes are abstract ids; Ok must imply that every listed delta with a known serial has the known hash",
         "update / delta_update / snapshot_update: all paths, delta application loop unrolled to 2 deltas",
     ]
     res.assumptions += [
